@@ -16,7 +16,7 @@ RULES = [(r"<=", "<"), (r">=", ">"), (r"(?<![<>=!-])<(?![=<-])", "<="), (r"(?<![
          (r"\.Add\(", ".Sub("), (r"\.Sub\(", ".Add("), (r"\.GT\(", ".GTE("), (r"\.GTE\(", ".GT("), (r"\.LT\(", ".LTE("), (r"\.LTE\(", ".LT("),
          (r"\.IsZero\(\)", ".IsPositive()"), (r"\.After\(", ".Before("), (r"\.Before\(", ".After("), (r"&&", "||"), (r"\|\|", "&&"),
          (r"\btrue\b", "false"), (r"\bfalse\b", "true"), (r"\+ 1\b", "+ 2"), (r"- 1\b", "- 0"), (r"\.Mul\(", ".Quo("), (r"\.Quo\(", ".Mul("),
-         (r"\.TruncateInt\(\)", ".RoundInt()"), (r"\.IsBonded\(\)", ".IsUnbonded()"), (r"\bcontinue\b", "break"), (r"err != nil", "err == nil")]
+         (r"\.TruncateInt\(\)", ".RoundInt()"), (r"\.IsBonded\(\)", ".IsUnbonded()"), (r"\bcontinue\b", "break")]
 def candidates(path):
     out = []
     try:
@@ -100,7 +100,7 @@ for l in open("/verif/properties.jsonl"):
         continue
     cands = []
     for f in d["anchors"]["files"]:
-        if f.endswith(".go") and not f.endswith("_test.go"):
+        if f.endswith(".go") and not f.endswith("_test.go") and f not in ("app/app.go", "x/bridge/module.go"):
             cands += candidates(f)
     rng.shuffle(cands)
     for c in cands[:K]:
